@@ -1044,8 +1044,14 @@ class ApertureStats:
         The centroid is computed as the center of mass of the unmasked
         pixels within the aperture.
         """
-        origin = np.transpose((self.bbox_xmin, self.bbox_ymin))
-        return self.cutout_centroid + origin
+        # the cutouts start at the first pixel of the aperture bounding
+        # box that lies inside the data (not at a negative bbox origin)
+        origin = [(np.nan, np.nan) if slc_large is None
+                  else (slc_large[1].start, slc_large[0].start)
+                  for slc_large, _ in self._overlap_slices]
+        if self.isscalar:
+            origin = origin[0]
+        return self.cutout_centroid + np.array(origin)
 
     @lazyproperty
     def _xcentroid(self):
